@@ -47,6 +47,9 @@ def universe(tier):
                                 continue
                             for comp in (0, 1):
                                 yield {"hz": hz, "kind": kind, "val": val, "place": place, "L": L, "alap": alap, "comp": comp}
+                                if hz == "fits" and L == 60:
+                                    # the same project with the task tree written BEFORE the resources (limit entries name resources not yet declared)
+                                    yield {"hz": hz, "kind": kind, "val": val, "place": place, "L": L, "alap": alap, "comp": comp, "tf": True}
 
 
 def _hours(val):
@@ -136,6 +139,8 @@ def to_spec(it):
         tasks.append({"id": "z", "effort": 150, "alloc": ["r1"], "prio": 300})
     spec["resources"] = resources
     spec["tasks"] = tasks
+    if it.get("tf"):
+        spec["tasks_first"] = True
     return spec
 
 
